@@ -701,15 +701,23 @@ func Neighbour(t *rapid.T, lit string, label string) string {
 	}
 }
 
-// Bulk draws a wide object (34-90 members, at the root or one level down) and
+// Bulk draws a wide object (34-90 members, one time in four 130-300, at the root
+// or one level down; one member is itself an object that the edits reach into) and
 // a long patch that takes most of its members away again (removes, a few moves
 // to new names, a few adds), plus the merge patch that does the same with
 // nulls. Thresholds of the kind "shrink the key list when it is a quarter
 // full" are crossed only by such bulk edits of one object in one call.
 func Bulk(t *rapid.T) (doc *ref.V, ops []ref.Op, merge *ref.V) {
 	n := Uniform(t, 34, 90, "bulkn")
+	if OneIn(t, 4, "bulkbig") {
+		n = Uniform(t, 130, 300, "bulknbig")
+	}
 	wide := ref.Obj()
 	for i := 0; i < n; i++ {
+		if i == n/2 {
+			// an object-valued member that the edits merge into rather than replace
+			wide.Set("keep", ref.ObjOf("a", ref.Num("1"), "b", ref.Num("2"), "in", ref.ObjOf("x", ref.Null())))
+		}
 		wide.Set(fmt.Sprintf("k%02d", i), ref.Num(fmt.Sprint(i)))
 	}
 	pre := ""
@@ -719,7 +727,13 @@ func Bulk(t *rapid.T) (doc *ref.V, ops []ref.Op, merge *ref.V) {
 		pre = "/w"
 	}
 	k := Uniform(t, n/2, n-1, "bulkk")
-	order := rapid.Permutation(wide.Keys).Draw(t, "bulkorder")[:k]
+	var names []string
+	for _, name := range wide.Keys {
+		if name != "keep" {
+			names = append(names, name)
+		}
+	}
+	order := rapid.Permutation(names).Draw(t, "bulkorder")[:k]
 	merge = ref.Obj()
 	mw := merge
 	if pre != "" {
@@ -738,6 +752,8 @@ func Bulk(t *rapid.T) (doc *ref.V, ops []ref.Op, merge *ref.V) {
 		mw.Set(name, ref.Null())
 	}
 	mw.Set("added", ref.Bool(true))
+	mw.Set("keep", ref.ObjOf("b", ref.Num("3"), "in", ref.ObjOf("y", ref.Num("4"))))
+	ops = append(ops, ref.Op{Op: "replace", Path: pre + "/keep/b", Value: ref.Num("3")}, ref.Op{Op: "add", Path: pre + "/keep/in/y", Value: ref.Num("4")})
 	return doc, ops, merge
 }
 
